@@ -630,10 +630,17 @@ impl Drop for OsOpaqueIpcChannel {
     fn drop(&mut self) {
         // Make sure we don't leak!
         //
-        // The `OsOpaqueIpcChannel` objects should always be used,
-        // i.e. converted with `to_sender()` or `to_receiver()` --
-        // so the value should already be unset before the object gets dropped.
-        debug_assert!(self.fd == -1);
+        // The `OsOpaqueIpcChannel` objects are normally used,
+        // i.e. converted with `to_sender()` or `to_receiver()`,
+        // which unsets the value.
+        // If a message is dropped without all of its channels being used
+        // (e.g. because it could not be deserialized), we still own the descriptor.
+        if self.fd >= 0 {
+            unsafe {
+                let result = libc::close(self.fd);
+                assert!(thread::panicking() || result == 0);
+            }
+        }
     }
 }
 
